@@ -61,6 +61,8 @@ def run(ck, fb, fbd):
     ranges(ck, fb)
     collectors(ck, fb)
     arithmetic(ck, fb)
+    from .rule_u import sorted_rule
+    sorted_rule(ck, fb, lambda g: "Iter" in g.pq, floor=8)
     from .c15_c16 import sheet_rule
     ck.rule("C05.sheet", "CellSheetCellIter collects the neighbours across exactly the four halffaces whose orientation is neither the given direction nor opposite_orientation(direction)")
     sheet_rule(ck, fb, "C05.sheet")
